@@ -266,7 +266,7 @@ func checkC15(cx *Ctx, r *Report) {
 		r.Check(okNew, "R-VFG", "setIssuerCtx:request", w.FnPos(f), "the handler chain receives r.WithContext(...)", "the issuer is stored somewhere other than a per-request copy of the request")
 	}
 	// --- IDs -------------------------------------------------------------------------------------------
-	cx.checkIDs(r, vf)
+	cx.checkIDs(r, vf, 6)
 }
 
 // checkPoolEscape: a function that returns objects to a sync.Pool must not hand out values that alias them.
@@ -304,7 +304,7 @@ func (cx *Ctx) checkPoolEscape(r *Report) {
 
 // checkIDs: every Id field of an emitted message is the result of a NewID() call of its own, and NewID is
 // Sprintf("_%s", uuid.New()).
-func (cx *Ctx) checkIDs(r *Report, vf *VFlow) {
+func (cx *Ctx) checkIDs(r *Report, vf *VFlow, minSinks int) {
 	w := cx.W
 	nid := w.Func("provider.NewID")
 	if nid == nil {
@@ -359,7 +359,7 @@ func (cx *Ctx) checkIDs(r *Report, vf *VFlow) {
 			r.Check(dup == "", "R-ID", key, w.InstrPos(st), fmt.Sprintf("Id <- NewID() (%d call site(s))", len(calls)), "the same NewID() result is used for two Id fields ("+dup+")")
 		}
 	}
-	if n < 6 {
+	if n < minSinks {
 		r.Fail("R-ID", "#id-sinks", "", fmt.Sprintf("only %d Id stores of emitted messages found", n))
 	}
 	// response and assertion Ids of one message come from different calls
